@@ -100,6 +100,8 @@ def run(ctx):
     ctx.mc("MC_Seed", core.cfg_of("MC_Seed.cfg"), coverage=False,
            label="abstract constructors, every idempotent normalisation of a 4-text alphabet")
     events = core.build_events(ctx, gen_inputs(ctx))
+    events += core.suite_events(ctx, ["tests/test_bip39.py", "tests/test_base_wallet.py"], ("Seed",), len(events),
+                                limit=25 if ctx.quick else 400)
     for e in events[3:5] + events[-1:]:
         ctx.sample({"call": describe(e), "res": str(e["res"])[:160]})
     rj = ctx.validate(MODULE, events, min_shard=20)
